@@ -20,7 +20,7 @@ def loop_case(check, i):
                       {"success": {"t": Expr(Ref("inner", "outputs", "success", "data"))}}, gen.SUB_INPUT, name="sub.yaml")
         first_src = "sub2_w0"
     else:
-        sub = gen.sub_program("sub.yaml", nsub, with_err)
+        sub = gen.sub_program("sub.yaml", nsub, with_err, other_output=rng.choice([None, None, "skipped", "partial-result"]))
         first_src = "sub_w0"
     fe = Step("loop", "foreach", sub=sub, items=Expr(In("items")))
     if par is not None:
@@ -140,6 +140,12 @@ def run(check):
             h = hwm(res, g["first_src"])
             if h > g["par"]:
                 check.report("loop@parallelism-exceeded", "%d item executions open at once, parallelism %d (%s)" % (h, g["par"], g["shape"]), {"case": case, "result": runfam.strip(res)})
+            # no item finishes before the cancellation (all hang), so at most `parallelism` item runs may ever have started:
+            # each started item run deploys the sub-workflow's plugin once
+            started = len([e for e in res.get("events") or [] if e["kind"] == "deploy-call" and e["src"] == g["first_src"] and mon._nth(e) >= 2])
+            if started > g["par"]:
+                check.report("loop@items-started-beyond-parallelism", "%d item runs were started although no item had finished and parallelism is %d (%s)" % (started, g["par"], g["shape"]),
+                             {"case": case, "result": runfam.strip(res)})
             check.nontrivial(g["shape"])
             continue
         for v in monitor(case, res, sem):
